@@ -14,6 +14,7 @@ func init() {
 
 func c06(c *q.Ctx) {
 	poolMapOwner(c)
+	metaCopiesDistinct(c)
 	const st = "bcs/ledger/xledger/state::"
 	const led = "bcs/ledger/xledger/ledger::"
 	const miner = "kernel/engines/xuperos/miner::"
